@@ -75,8 +75,10 @@ fn exact_area(g: &G, refl: bool) -> (i128, i128) {
         }
         G::Triangle(a, b, c) => {
             let r = tri_ring(*a, *b, *c);
-            // Triangle::new re-orders to counter-clockwise: the signed area is never negative
-            (twice_area_ring(&r).abs(), ring_abs_terms(&r))
+            // the triangle is built as the tuple struct Triangle(a, b, c) (no re-ordering, unlike Triangle::new):
+            // signed by its stored vertex order, which a reflection reverses
+            let sign = if refl { -1 } else { 1 };
+            (sign * twice_area_ring(&r), ring_abs_terms(&r))
         }
         G::Coll(v) => v.iter().map(|m| exact_area(m, refl)).fold((0, 0), |a, b| (a.0 + b.0, a.1 + b.1)),
         _ => (0, 0),
